@@ -368,6 +368,17 @@ def fitFractionApply (c : Converter α) (q : SQuantity α) (unit : Unit α)
         (⟨.range sel.1 ((c.approx e' (c.fractionsConfig sel.2)).getD (.regular e')), some sym⟩, .ok true)
     | .text t => (q, .error (.textValue t))   -- `unreachable!()`: excluded by the caller's first match
 
+/-- `fit_fraction` once the value to fit (`value`: the number, or the start of the range) is known:
+    candidates, `min_by`, apply -/
+def fitFractionWith (c : Converter α) (q : SQuantity α) (unit : Unit α) (system : System) (v : α) :
+    SQuantity α × Except ConvErr Bool :=
+  match fracCandidates c v unit ((c.best unit.pq).conversions system).entries with
+  | .error e => (q, .error e)
+  | .ok cands =>
+    match minByKey cands with
+    | none => (q, .ok false)
+    | some sel => fitFractionApply c q unit sel
+
 /-- `ScaledQuantity::fit_fraction` (mod.rs:531): the mutated quantity and the result -/
 def fitFraction (c : Converter α) (q : SQuantity α) (unit : Unit α) (target : Option System) :
     SQuantity α × Except ConvErr Bool :=
@@ -376,20 +387,8 @@ def fitFraction (c : Converter α) (q : SQuantity α) (unit : Unit α) (target :
   | some system =>
     match q.value with
     | .text t => (q, .error (.textValue t))
-    | .number n =>
-      match fracCandidates c n.value unit ((c.best unit.pq).conversions system).entries with
-      | .error e => (q, .error e)
-      | .ok cands =>
-        match minByKey cands with
-        | none => (q, .ok false)
-        | some sel => fitFractionApply c q unit sel
-    | .range s _ =>
-      match fracCandidates c s.value unit ((c.best unit.pq).conversions system).entries with
-      | .error e => (q, .error e)
-      | .ok cands =>
-        match minByKey cands with
-        | none => (q, .ok false)
-        | some sel => fitFractionApply c q unit sel
+    | .number n => fitFractionWith c q unit system n.value
+    | .range s _ => fitFractionWith c q unit system s.value
 
 def dropBool : SQuantity α × Except ConvErr Bool → SQuantity α × Except ConvErr _root_.Unit
   | (q, .ok _) => (q, .ok ())
